@@ -61,7 +61,11 @@ def build(rnd, k):
     for i in range(n_imp):
         ps = [rnd.choice(TYPES) for _ in range(rnd.randint(0, 6))]
         res = rnd.choice([I32, I64, F32, F64, None])
-        m.import_func('env', 'host%d' % i, ps, [res] if res else [])
+        # import names exercise the documented mangling (<module>__<name>, X%02X escapes, underscore doubling): names that contain the
+        # escape character itself, text that LOOKS like an escape next to the character it would stand for, punctuation, UTF-8
+        imod = rnd.choice(['env', 'env', 'a.b', 'h\u00f4te', 'X', 'e_', 'wasi:io/x@0.2'])
+        inm = rnd.choice(['host%d', 'hostX%d', 'getX2Ev%d', 'get.v%d', 'X%d', 'h__%d', '_%d_', 'h-%d', 'h %d', '\u8a08%d', 'h\u00e9%d', 'xX58%d', 'HOST%d', 'h$%d', '%d']) % i
+        m.import_func(imod, inm, ps, [res] if res else [])
         sigs.append((tuple(ps), res))
     goff = None
     if rnd.random() < 0.5:
